@@ -497,8 +497,11 @@ def main(argv):
                 for k, why in out_of_reach:
                     print("UNDECIDED: property=%s function %s is outside the verifier's reach (%s) and the bounded witness search found no failing input" % (pid, k, why))
         bounded = None
-        if a.tier == "thorough" and not a.no_replay and not (new_fails or out_of_reach or out_of_reach_cone):
-            # thorough only: the bounded witness search also runs when nothing was refuted - a concrete cross-check of the ASSUMED contracts
+        tree_changed = bool(changed_fns or new_fns or stub or getattr(ctx, "lost_contracts", None))
+        if (a.tier == "thorough" or tree_changed) and not a.no_replay and not (new_fails or out_of_reach or out_of_reach_cone):
+            # (also in the quick tier whenever the tree differs from the baseline: a change can be equivalent under the ASSUMED contracts of
+            #  the dependencies and still behave differently - only a run on the real crates can tell)
+            # thorough tier, or any tier on a changed tree: the bounded witness search also runs when nothing was refuted - a concrete cross-check of the ASSUMED contracts
             # (crypto, base64, serde, time shims) against the real crates and an independent transcription of the spec.  Not proof, labelled bounded.
             bounded = find_witness(pid, [], a.src)
             if bounded.get("found"):
@@ -624,7 +627,7 @@ def write_evidence(pid, tier, seed, obls, discharged, fails, runs, vr, times, ct
             "refuted": [f["obligation"] for f in fails],
             "functions_outside_verifier": [k for k, _ in out_of_reach],
             "attribution_table": {"clauses_analysed": len(LABEL_DEPS), "clauses_with_dependents": sum(1 for v in LABEL_DEPS.values() if v.get("dependents")), "source": "label_deps.json (tools/label_deps.py: each clause replaced by `true`, callers re-verified)"},
-            "bounded_cross_check": ({"what": "witness finder of replay/ run on this tree although nothing was refuted (thorough tier): concrete cross-check of the assumed contracts against the real crates; bounded, not counted as proof", "found": bool(bounded.get("found")), "witness": bounded.get("witness")} if bounded is not None else "not run in this tier"),
+            "bounded_cross_check": ({"what": "witness finder of replay/ run on this tree although nothing was refuted (thorough tier, or any tier when the tree differs from the baseline): concrete cross-check of the assumed contracts against the real crates; bounded, not counted as proof", "found": bool(bounded.get("found")), "witness": bounded.get("witness")} if bounded is not None else "not run (quick tier on the unchanged tree)"),
             "kani": ({"backend": "kani 0.68 / cbmc", "harnesses": kani_info["results"], "wall_s": round(kani_info.get("wall", 0), 1), "cmd": kani_info.get("cmd")} if kani_info else "not run in this tier (header constants are then an assumption of the Verus unit)"),
         },
         "assumptions": trusted.get("assumption_text", []) + trusted.get("assumption_text_" + pid, []),
